@@ -113,7 +113,7 @@ class RunPlan:
         if harness:
             for i, e in harness[:5]:
                 out("HARNESS-ERROR run=%d seed=%s %s" % (i, tasks[i][1].get("seed"), e.strip().splitlines()[-1] if e.strip() else e))
-            self.evidence(tier, seed, t0, tasks, results, [], {}, {}, harness=len(harness))
+            self.evidence(tier, seed, t0, tasks, results, {}, {}, {}, harness=len(harness))
             return 2
 
         self.post_process(tasks, results, pool)
@@ -137,7 +137,7 @@ class RunPlan:
                     out("HARNESS-NONDETERMINISM property=%s run=%d seed=%s %s != %s" % (
                         self.prop, i, tasks[i][1].get("seed"), results[i].get("digest"), a.get("digest")))
             if st["mismatches"]:
-                self.evidence(tier, seed, t0, tasks, results, [], {}, st)
+                self.evidence(tier, seed, t0, tasks, results, {}, {}, st)
                 return 3
 
         # violations
